@@ -116,7 +116,8 @@ Contract(X, a, b) ==
                   ELSE i[CHOOSE q \in 1..Len(keep) : keep[q] = k - 1]])))
 
 \* collapse the sorted 0-based modes sd with reducer "sum" | "max" | "min"
-ReduceSeq(q, red) == IF red = "sum" THEN SumSeq(q)
+\* "halfsum": the reducer sum(v)/2 whose result the driver doubles - a reducer with non-integer values on integer data
+ReduceSeq(q, red) == IF red \in {"sum", "halfsum"} THEN SumSeq(q)
                      ELSE IF red = "max" THEN SetMax(Range(q))
                      ELSE SetMin(Range(q))
 Collapse(X, sd, red) ==
